@@ -167,7 +167,9 @@ void aws_mem_release(struct aws_allocator *a, void *p) {
 }
 #endif
 static struct aws_allocator PARENT;
-static struct small_block_allocator S;
+static struct small_block_allocator S_static;
+static struct small_block_allocator *SB = &S_static;
+#define S (*SB)
 #define PGB(i) ((uint8_t *)g_pt[(i)])
 
 static bool bin_same(const struct sba_bin *a, const struct sba_bin *b) {
@@ -333,14 +335,171 @@ void h_free_step(void) {
     if (have_w && sba_pidx(w) != pai) CANARY("free: witness in another page");
 }
 
-void h_dbg_state(void) {
-    struct sba_bin *bin = any_bin_state();
-    CHECK(sba_bin_inv(&S, bin, CLS), "dbg");
-    CANARY("dbg: state exists");
+/* ================================================================ metrics, locks, destroy */
+/* lock model for the sequential units: lock/unlock are the allocator's function pointers; the model records which mutex is
+ * held, so "lock the bin's own mutex, release it again, never nest" are obligations */
+struct aws_mutex *g_held;
+size_t g_locks, g_unlocks;
+static int model_lock(struct aws_mutex *m) {
+    CHECK(g_held == NULL, "lock: no lock is held when a bin lock is taken");
+    g_held = m;
+    g_locks++;
+    return 0;
 }
-void h_dbg_alloc(void) {
-    struct sba_bin *bin = any_bin_state();
-    uint8_t *r = s_sba_alloc_from_bin(bin);
-    CHECK(r != NULL, "dbg");
-    CANARY("dbg: returned");
+static int model_unlock(struct aws_mutex *m) {
+    CHECK(g_held == m, "unlock: the mutex released is the one held");
+    g_held = NULL;
+    g_unlocks++;
+    return 0;
 }
+/* bins other than SBA_BIN as s_sba_init leaves them: empty lists with storage, no working page */
+static void other_bins_empty(void) {
+    for (unsigned i = 0; i < AWS_SBA_BIN_COUNT; i++) {
+        if (i == SBA_BIN) continue;
+        struct sba_bin *b = &S.bins[i];
+        b->size = s_bin_sizes[i];
+        b->page_cursor = NULL;
+        void **d1 = malloc(2 * sizeof(void *)), **d2 = malloc(2 * sizeof(void *));
+        __CPROVER_assume(d1 != NULL && d2 != NULL);
+        b->active_pages = (struct aws_array_list){.alloc = S.allocator, .current_size = 2 * sizeof(void *), .length = 0, .item_size = sizeof(void *), .data = d1};
+        b->free_chunks = (struct aws_array_list){.alloc = S.allocator, .current_size = 2 * sizeof(void *), .length = 0, .item_size = sizeof(void *), .data = d2};
+        b->mutex.initialized = false;
+    }
+}
+
+void h_metrics(void) {
+    struct sba_bin *bin = any_bin_state();
+    other_bins_empty();
+    S.lock = model_lock;
+    S.unlock = model_unlock;
+    g_held = NULL;
+    g_locks = g_unlocks = 0;
+    struct aws_allocator A = {.mem_acquire = s_sba_mem_acquire, .mem_release = s_sba_mem_release, .mem_realloc = s_sba_mem_realloc, .mem_calloc = s_sba_mem_calloc, .impl = SB};
+    size_t live = sba_bin_live_count(bin);
+    size_t pages = sba_bin_pages(bin);
+
+    size_t active = aws_small_block_allocator_bytes_active(&A);
+    CHECK(active == live * CLS, "bytes_active: equals (number of live chunks) x (class size)");
+    CHECK(g_held == NULL && g_locks == AWS_SBA_BIN_COUNT && g_unlocks == AWS_SBA_BIN_COUNT, "bytes_active: every bin locked and unlocked once");
+    size_t reserved = aws_small_block_allocator_bytes_reserved(&A);
+    CHECK(reserved == pages * SBA_PAGE, "bytes_reserved: equals (number of pages held) x (page size)");
+    CHECK(g_held == NULL && g_locks == 2 * AWS_SBA_BIN_COUNT && g_unlocks == 2 * AWS_SBA_BIN_COUNT, "bytes_reserved: every bin locked and unlocked once");
+    CHECK(live != 0 || reserved <= SBA_PAGE, "with nothing live the bin holds at most one page (its working page)");
+    CHECK(sba_bin_inv(&S, bin, CLS) && g_page_allocs == 0 && g_page_frees == 0, "metrics: state untouched");
+    CHECK(aws_small_block_allocator_page_size(&A) == SBA_PAGE && aws_small_block_allocator_page_size_available(&A) == SBA_PAGE - SBA_HDR, "page size / usable page size");
+    if (live == 0 && pages == 1) CANARY("metrics: nothing live, working page kept");
+    if (live == 0 && pages == 0) CANARY("metrics: empty bin");
+    if (bin->active_pages.length == 2 && bin->page_cursor != NULL) CANARY("metrics: two exhausted pages and a working page");
+    if (bin->active_pages.length == 0 && live > 0) CANARY("metrics: only the working page");
+}
+
+/* aws_small_block_allocator_destroy on an arbitrary invariant state (chunks may still be live: NDEBUG build, the
+ * AWS_ASSERTs are compiled out): every page the bin holds goes back to the OS exactly once, the lists' storage and the
+ * allocator block go back to the parent */
+void h_destroy_step(void) {
+    SB = malloc(sizeof(struct small_block_allocator));
+    __CPROVER_assume(SB != NULL);
+    struct sba_bin *bin = any_bin_state();
+    other_bins_empty();
+    bin->mutex.initialized = false;
+    struct aws_allocator A = {.mem_acquire = s_sba_mem_acquire, .mem_release = s_sba_mem_release, .mem_realloc = s_sba_mem_realloc, .mem_calloc = s_sba_mem_calloc, .impl = SB};
+    size_t pages = sba_bin_pages(bin);
+    bool listed[SBA_NP];
+    for (unsigned i = 0; i < SBA_NP; i++) listed[i] = sba_listed(bin, i);
+    bool had_work = bin->page_cursor != NULL;
+
+    aws_small_block_allocator_destroy(&A);
+
+    CHECK(g_page_frees == pages, "destroy: as many pages released as the bin held");
+    for (unsigned i = 0; i < SBA_NP; i++) CHECK(g_pt_alive[i] == !listed[i], "destroy: exactly the listed pages are released (each once: double free is a libc-model obligation)");
+    CHECK(g_par_releases == 2 * AWS_SBA_BIN_COUNT + 1 && g_par_acquires == 0, "destroy: storage of the ten lists and the allocator block go back to the parent");
+    CHECK(g_page_allocs == 0, "destroy: nothing allocated");
+    if (pages == 0) CANARY("destroy: empty bin");
+    if (pages == SBA_NP) CANARY("destroy: exhausted pages and working page");
+    if (had_work && pages == 1) CANARY("destroy: only a working page");
+}
+void h_destroy_null(void) {
+    struct aws_allocator A = {.mem_acquire = s_sba_mem_acquire, .mem_release = s_sba_mem_release, .mem_realloc = s_sba_mem_realloc, .mem_calloc = s_sba_mem_calloc, .impl = NULL};
+    g_par_acquires = g_par_releases = g_page_frees = 0;
+    aws_small_block_allocator_destroy(NULL);
+    aws_small_block_allocator_destroy(&A);
+    CHECK(g_par_releases == 0 && g_page_frees == 0, "destroy: NULL allocator / NULL impl is a no-op");
+    CANARY("destroy: NULL cases returned");
+}
+
+/* ---- aws_small_block_allocator_new: establishes the invariant of every bin (empty), the class table, the vtable ---- */
+/* source/posix/mutex.c is not linked: a mutex is its `initialized` flag, lock/unlock go to the lock model */
+bool g_mutex_init_fails_at_on;
+size_t g_mutex_init_fails_at, g_mutex_inits, g_mutex_cleanups;
+int aws_mutex_init(struct aws_mutex *m) {
+    if (g_mutex_init_fails_at_on && g_mutex_inits == g_mutex_init_fails_at) return AWS_OP_ERR;
+    g_mutex_inits++;
+    m->initialized = true;
+    return AWS_OP_SUCCESS;
+}
+void aws_mutex_clean_up(struct aws_mutex *m) { if (m->initialized) g_mutex_cleanups++; m->initialized = false; }
+int aws_mutex_lock(struct aws_mutex *m) { return model_lock(m); }
+int aws_mutex_unlock(struct aws_mutex *m) { return model_unlock(m); }
+
+#ifdef SBA_ACQUIRE_MANY_STUB
+/* ASSUMED model of aws_mem_acquire_many (allocator.c, a va_arg function outside C03) for its one use here: ONE parent block
+ * that holds two disjoint, aligned sub-blocks of the requested sizes, the first one at the start of the block.  (With the
+ * real function the block is an untyped byte array of a size computed through va_arg, the parent pointer read back from
+ * it is no longer a constant for the symbolic execution, and every vtable function becomes a call candidate.) */
+#include <stdarg.h>
+struct sba_two_blocks { struct small_block_allocator sba; struct aws_allocator alloc; };
+void *aws_mem_acquire_many(struct aws_allocator *allocator, size_t count, ...) {
+    va_list ap;
+    va_start(ap, count);
+    void **p1 = va_arg(ap, void **);
+    size_t s1 = va_arg(ap, size_t);
+    void **p2 = va_arg(ap, void **);
+    size_t s2 = va_arg(ap, size_t);
+    va_end(ap);
+    CHECK(allocator != NULL && count == 2 && s1 == sizeof(struct small_block_allocator) && s2 == sizeof(struct aws_allocator), "acquire_many: asked for allocator block + vtable block");
+    g_par_acquires++;
+    struct sba_two_blocks *b = malloc(sizeof(struct sba_two_blocks));
+    __CPROVER_assume(b != NULL);
+    *p1 = &b->sba;
+    *p2 = &b->alloc;
+    return b;
+}
+void h_new_destroy(void) {
+    PARENT = (struct aws_allocator){0};
+    g_par_acquires = g_par_releases = g_page_allocs = g_page_frees = 0;
+    g_mutex_inits = g_mutex_cleanups = 0;
+    g_held = NULL; g_locks = g_unlocks = 0;
+    for (unsigned i = 0; i < SBA_MAXP; i++) { g_pt[i] = NULL; g_pt_alive[i] = false; }
+    bool mt = nondet_bool();
+    g_mutex_init_fails_at_on = nondet_bool();
+    g_mutex_init_fails_at = any_below(AWS_SBA_BIN_COUNT);
+
+    struct aws_allocator *a = aws_small_block_allocator_new(&PARENT, mt);
+
+    if (a == NULL) {
+        CHECK(mt && g_mutex_init_fails_at_on, "new: fails only when a mutex cannot be initialised");
+        CHECK(g_par_releases == g_par_acquires && g_mutex_cleanups == g_mutex_inits, "new: a failed construction gives everything back");
+        CANARY("new: construction failed (mutex), nothing leaked");
+        return;
+    }
+    CHECK(a->mem_acquire == s_sba_mem_acquire && a->mem_release == s_sba_mem_release && a->mem_realloc == s_sba_mem_realloc && a->mem_calloc == s_sba_mem_calloc,
+          "new: vtable is the small-block allocator's");
+    struct small_block_allocator *sba = a->impl;
+    CHECK(sba != NULL && sba->allocator == &PARENT, "new: parent allocator recorded");
+    CHECK(mt ? (sba->lock == s_mutex_lock && sba->unlock == s_mutex_unlock) : (sba->lock == s_null_lock && sba->unlock == s_null_unlock), "new: real mutex functions exactly when multi-threaded");
+    for (unsigned i = 0; i < AWS_SBA_BIN_COUNT; i++) {
+        struct sba_bin *b = &sba->bins[i];
+        CHECK(sba_bin_inv(sba, b, SBA_CLASS_SIZE(i)), "new: every bin satisfies the bin invariant");
+        CHECK(b->page_cursor == NULL && b->active_pages.length == 0 && b->free_chunks.length == 0, "new: every bin is empty");
+        CHECK(b->free_chunks.current_size / sizeof(void *) >= SBA_NCH(b->size) && b->active_pages.current_size / sizeof(void *) >= 16, "new: the free list has room for one page of chunks");
+        CHECK(b->mutex.initialized == mt, "new: mutex initialised exactly when multi-threaded");
+    }
+    CHECK(g_par_acquires == 1 + 2 * AWS_SBA_BIN_COUNT && g_par_releases == 0 && g_page_allocs == 0, "new: one block for allocator + vtable, ten list stores, no page yet");
+    CHECK(aws_small_block_allocator_bytes_active(a) == 0 && aws_small_block_allocator_bytes_reserved(a) == 0, "new: nothing active, nothing reserved");
+    CHECK(g_held == NULL && g_locks == g_unlocks && g_locks == (mt ? 2 * AWS_SBA_BIN_COUNT : 0), "new: metrics lock each bin once when multi-threaded");
+
+    aws_small_block_allocator_destroy(a);
+    CHECK(g_par_releases == g_par_acquires && g_page_frees == 0 && g_mutex_cleanups == g_mutex_inits, "destroy of a fresh allocator returns everything to the parent");
+    if (mt) CANARY("new/destroy: multi-threaded"); else CANARY("new/destroy: single-threaded");
+}
+#endif
